@@ -293,6 +293,79 @@ pub fn check_lib(c: &Case, info: &mut CaseInfo) -> Outcome {
     Outcome::Ok
 }
 
+/// Real-world documents (every pytest-style file found offline) as the first version, followed by
+/// generated character-level mutations of it; every query at every position the index recorded for
+/// any earlier version, at generated positions and at the extremes.
+#[derive(Clone, Debug, Serialize, Deserialize)]
+pub struct CorpusCase {
+    pub file: u16,
+    pub muts: Vec<Vec<Mut>>,
+    pub positions: Vec<(u32, u32)>,
+}
+
+pub fn corpus_case() -> impl Strategy<Value = CorpusCase> {
+    (any::<u16>(), vec(vec(mutation(), 1..=3), 1..=3), vec((prop_oneof![3 => 0u32..400, 1 => Just(u32::MAX)], prop_oneof![3 => 0u32..120, 1 => Just(u32::MAX)]), 0..=3)).prop_map(|(file, muts, positions)| CorpusCase { file, muts, positions })
+}
+
+pub fn check_corpus(files: &[PathBuf], c: &CorpusCase, info: &mut CaseInfo) -> Outcome {
+    if files.is_empty() {
+        return Outcome::Ok;
+    }
+    let f = &files[((c.file as usize) * files.len()) >> 16];
+    let Ok(bytes) = std::fs::read(f) else { return Outcome::Ok };
+    let mut text = String::from_utf8_lossy(&bytes).to_string();
+    // keep cases cheap: very large real-world files are cut at a line boundary
+    if text.len() > 60_000 {
+        let cut = text[..60_000].rfind('\n').unwrap_or(0);
+        text.truncate(cut);
+    }
+    let db = FixtureDatabase::new();
+    let p = PathBuf::from(file_path(1));
+    let mut stale: Vec<(u32, u32)> = Vec::new();
+    for vi in 0..=c.muts.len() {
+        if vi > 0 {
+            let hot: Vec<usize> = stale.iter().map(|(l, _)| *l as usize).collect();
+            text = apply_muts_hot(&text, &c.muts[vi - 1], &hot);
+        }
+        if let Err(e) = guard("analyze_file", || db.analyze_file(p.clone(), &text)) {
+            return Outcome::Fail(format!("{} (version #{}): {}", f.display(), vi, e));
+        }
+        if let Some(us) = db.usages.get(&p) {
+            for u in us.iter().take(40) {
+                stale.push(((u.line.max(1) - 1) as u32, u.start_char as u32));
+                stale.push(((u.line.max(1) - 1) as u32, u.end_char as u32));
+            }
+        }
+        for d in crate::snapshot::all_defs(&db).iter().take(20) {
+            stale.push(((d.line.max(1) - 1) as u32, d.start_char as u32));
+        }
+        for u in db.get_undeclared_fixtures(&p).iter().take(10) {
+            stale.push(((u.function_line.max(1) - 1) as u32, u.start_char as u32));
+        }
+        stale.sort();
+        stale.dedup();
+        if stale.len() > 80 {
+            stale.truncate(80);
+        }
+        let mut pos = stale.clone();
+        pos.extend(c.positions.iter().copied());
+        pos.push((0, 0));
+        for (l, ch) in pos {
+            match all_queries(&db, &p, l, ch) {
+                Ok(n) => info.checks += n,
+                Err(e) => return Outcome::Fail(format!("{} after version #{}: {}", f.display(), vi, e)),
+            }
+        }
+        match file_level_queries(&db, &p) {
+            Ok(n) => info.checks += n,
+            Err(e) => return Outcome::Fail(format!("{} after version #{}: {}", f.display(), vi, e)),
+        }
+    }
+    info.nontrivial = true;
+    info.classes.push("corpus document with mutations".into());
+    Outcome::Ok
+}
+
 /// Server tier: the same histories through the real binary.
 pub fn check_server(ctx: &Ctx, c: &Case, info: &mut CaseInfo) -> Outcome {
     use crate::lsp::*;
@@ -424,10 +497,10 @@ pub struct FaultCase {
     pub faults: Vec<(u8, Vec<u8>)>,
 }
 
-pub const FAULT_KINDS: [&str; 11] = [
+pub const FAULT_KINDS: [&str; 12] = [
     "non-utf8 test file", "dangling symlink test file", "directory named test_dir.py", "directory named conftest.py",
     "garbage pyproject.toml", "non-utf8 entry_points.txt", "garbage direct_url.json + .pth", "non-ascii dist-info name (editable)",
-    "symlink loop directory", "test file with NUL / BOM bytes", "garbage .pth files",
+    "symlink loop directory", "test file with NUL / BOM bytes", "garbage .pth files", "a dozen unparsable test modules / conftests",
 ];
 
 pub fn inject_fault(root: &str, kind: u8, bytes: &[u8]) -> std::io::Result<()> {
@@ -435,7 +508,17 @@ pub fn inject_fault(root: &str, kind: u8, bytes: &[u8]) -> std::io::Result<()> {
     let sp = format!("{}/.venv/lib/python3.11/site-packages", root);
     fs::create_dir_all(&sp)?;
     let junk: Vec<u8> = if bytes.is_empty() { vec![0xff, 0xfe, 0x00, 0xc3, 0x28] } else { bytes.to_vec() };
-    match kind % 11 {
+    match kind % 12 {
+        11 => {
+            // a dozen syntactically invalid test modules and conftests in directories of their own:
+            // whatever order the scan visits files in, some healthy file comes after a broken one
+            for i in 0..12 {
+                let d = format!("{}/zz_broken_{}", root, i);
+                fs::create_dir_all(&d)?;
+                let body: &[u8] = if i % 3 == 0 { b"def test_broken(:\n    pass\n" } else if i % 3 == 1 { b"import pytest\n@pytest.fixture\ndef half(\n" } else { b"class :\n    )\n" };
+                fs::write(format!("{}/{}", d, if i % 4 == 0 { "conftest.py" } else { "test_broken.py" }), [body, &junk[..junk.len().min(4)]].concat())?;
+            }
+        }
         0 => fs::write(format!("{}/test_bad_bytes.py", root), [b"import pytest\n@pytest.fixture\ndef bad():\n    return '".as_slice(), &junk, b"\xff\xfe'\n"].concat())?,
         1 => {
             let _ = std::os::unix::fs::symlink(format!("{}/does/not/exist.py", root), format!("{}/test_dangling.py", root));
@@ -504,7 +587,7 @@ pub fn check_faults(fc: &FaultCase, info: &mut CaseInfo) -> Outcome {
     };
     let _ = std::fs::create_dir_all(format!("{}/.venv/lib/python3.11/site-packages", clean.root));
     for (k, b) in &fc.faults {
-        info.classes.push(format!("fault={}", FAULT_KINDS[(*k % 11) as usize]));
+        info.classes.push(format!("fault={}", FAULT_KINDS[(*k % 12) as usize]));
         if let Err(e) = inject_fault(&faulty.root, *k, b) {
             return Outcome::Fail(format!("cannot inject fault: {}", e));
         }
@@ -513,7 +596,7 @@ pub fn check_faults(fc: &FaultCase, info: &mut CaseInfo) -> Outcome {
     a.scan_workspace(Path::new(&clean.root));
     let b = FixtureDatabase::new();
     if let Err(e) = guard("scan_workspace", || b.scan_workspace(Path::new(&faulty.root))) {
-        return Outcome::Fail(format!("{} (faults: {:?})", e, fc.faults.iter().map(|(k, _)| FAULT_KINDS[(*k % 11) as usize]).collect::<Vec<_>>()));
+        return Outcome::Fail(format!("{} (faults: {:?})", e, fc.faults.iter().map(|(k, _)| FAULT_KINDS[(*k % 12) as usize]).collect::<Vec<_>>()));
     }
     let ra = per_file_records(&a, &clean.root);
     let rb = per_file_records(&b, &faulty.root);
@@ -525,7 +608,7 @@ pub fn check_faults(fc: &FaultCase, info: &mut CaseInfo) -> Outcome {
             other => {
                 return Outcome::Fail(format!(
                     "faults {:?}: file {} is indexed differently than without the fault: without={} with={}",
-                    fc.faults.iter().map(|(k, _)| FAULT_KINDS[(*k % 11) as usize]).collect::<Vec<_>>(),
+                    fc.faults.iter().map(|(k, _)| FAULT_KINDS[(*k % 12) as usize]).collect::<Vec<_>>(),
                     f,
                     rec,
                     other.map(|v| v.to_string()).unwrap_or("<not indexed>".into())
@@ -539,7 +622,7 @@ pub fn check_faults(fc: &FaultCase, info: &mut CaseInfo) -> Outcome {
         info.checks += 1;
         match o.code {
             Some(0) | Some(1) => {}
-            other => return Outcome::Fail(format!("`{}` ended with status {:?} on a tree with faults {:?}: {}", args.join(" "), other, fc.faults.iter().map(|(k, _)| k % 11).collect::<Vec<_>>(), o.stderr.chars().take(600).collect::<String>())),
+            other => return Outcome::Fail(format!("`{}` ended with status {:?} on a tree with faults {:?}: {}", args.join(" "), other, fc.faults.iter().map(|(k, _)| k % 12).collect::<Vec<_>>(), o.stderr.chars().take(600).collect::<String>())),
         }
     }
     Outcome::Ok
@@ -547,7 +630,7 @@ pub fn check_faults(fc: &FaultCase, info: &mut CaseInfo) -> Outcome {
 
 pub fn fault_case() -> impl Strategy<Value = FaultCase> {
     let cfg = crate::gen::GenCfg { names: 3, max_depth: 2, max_items: 2, ..crate::gen::GenCfg::default() };
-    (crate::gen::workspace(cfg), vec((0u8..11, vec(any::<u8>(), 0..24)), 1..=3)).prop_map(|(ws, faults)| FaultCase { ws, faults })
+    (crate::gen::workspace(cfg), vec((0u8..12, vec(any::<u8>(), 0..24)), 1..=3)).prop_map(|(ws, faults)| FaultCase { ws, faults })
 }
 
 pub const FUZZ_BIN: &str = "/verif/target-fuzz/x86_64-unknown-linux-gnu/release/fz_session";
@@ -597,6 +680,9 @@ pub fn run(ctx: &Ctx) {
     absorb_fuzz_summary(ctx);
     ctx.run_prop_shrink("scan-faults", ctx.tier.pick(150, 4_000), 8, 200, fault_case, |c, info| check_faults(c, info));
     ctx.run_prop("lib", ctx.tier.pick(12_000, 600_000), 16, case, |c, info| check_lib(c, info));
+    let files = crate::props::c03::corpus_files(100_000);
+    ctx.set_extra("corpus_files_available", serde_json::json!(files.len()));
+    ctx.run_prop_shrink("corpus", ctx.tier.pick(800, 40_000), 16, 200, corpus_case, |c, info| check_corpus(&files, c, info));
     ctx.run_prop_shrink("server", ctx.tier.pick(160, 4_000), 8, 200, case, |c, info| check_server(ctx, c, info));
 }
 
@@ -614,6 +700,10 @@ pub fn judge(ctx: &Ctx, sub: &str, case: &Value) -> Option<Outcome> {
         "lib" => {
             let c: Case = from_case(case)?;
             Some(check_lib(&c, &mut info))
+        }
+        "corpus" => {
+            let c: CorpusCase = from_case(case)?;
+            Some(check_corpus(&crate::props::c03::corpus_files(100_000), &c, &mut info))
         }
         "fuzz" => {
             let bytes: Vec<u8> = from_case(case.get("bytes")?)?;
